@@ -72,6 +72,9 @@ def cases(tier):
     return out
 
 
+_LAST = {}
+
+
 def _np2j(B, M):
     return B.const_array(M) if B.mode == "real" else B.jnp.ndarray(M)
 
@@ -94,6 +97,7 @@ def _request(B, W, case):
 
     if fault == "kraus-incomplete":
         Ks = [B.operator("K0", d), B.operator("K1", d)]
+        _LAST["Ks"] = Ks
         if entry == "state":
             t.apply_kraus(Ks)
         elif entry == "envelope":
@@ -178,6 +182,16 @@ def scenario(B, case):
         if restore is not None:
             h.Envelope.contract = restore
     if raised is None:
+        if fault == "kraus-incomplete":
+            # accepted side: the path condition (the library's own completeness test) must imply that the set really is
+            # trace preserving, sum K^+ K = I, with the CONJUGATE transpose - otherwise an invalid channel was let through
+            Ks = [B.np(K) for K in _LAST["Ks"]]
+            tot = None
+            for K in Ks:
+                term = ref.dagger(K) @ K
+                tot = term if tot is None else tot + term
+            B.require_zero([tot - cm.identity(B, int(t.dimensions))],
+                           "C17: a Kraus set accepted by the library satisfies sum K^+ K = I", "kraus-completeness")
         if fault in ("kraus-incomplete", "annihilate-vacuum"):
             raise Cut("request was valid on this path (accepted side; verified in C06 / C01)")
         B.require_structural(False, f"C17: invalid request ({fault}) was not rejected")
